@@ -4,6 +4,7 @@
   `east = nodes W dx ne true`, `north = nodes S dy nn true`); labels are nearest-centre indices.
 -/
 import VerdeModel.Lemmas.Blocks
+import VerdeModel.Props.C07
 namespace Verde.C08
 open Verde
 
@@ -134,5 +135,47 @@ theorem centres_are_pixel_grid (es ns : List Rat) (b : BlockSpec) (cs : List (Ra
 example : labelOf (centresOf (nodes 0 1 4 true) (nodes 0 2 1 true)) (5/2, 1/3) = 2 := by decide +kernel
 example : blockSplit [1/2, 7/2] [1/2, 3/2] ⟨some [0, 4, 0, 2], none, some [1, 2], .spacing⟩ =
     .ok ([(1, 1/2), (3, 1/2), (1, 3/2), (3, 3/2)], [0, 3]) := by decide +kernel
+
+/-! ### Bridge: the block grid of `block_split` regenerated from source -/
+
+/-- The list form of a 4-tuple region. -/
+def quadList (q : Rat × Rat × Rat × Rat) : List Rat := [q.1, q.2.1, q.2.2.1, q.2.2.2]
+
+theorem quadOfOpts_getRegion (es ns : List Rat) :
+    quadOfOpts (Gen.getRegion es ns) = match getRegion es ns with
+      | some r => .ok (r.w, r.e, r.s, r.n) | none => .error .valueError := by
+  unfold Gen.getRegion getRegion quadOfOpts
+  cases listMin es <;> cases listMax es <;> cases listMin ns <;> cases listMax ns <;> rfl
+
+/-- **Bridge.**  `block_split` up to `block_coords = grid_coordinates(...)` as regenerated STATEMENT BY STATEMENT from /repo's source text on
+    every run (the default region `get_region(coordinates)` when none is given — `ValueError` for empty arrays —, then the call to the
+    translated `grid_coordinates` core with `pixel_register=True` and the caller's spacing / shape / adjust) equals the model's block grid
+    (`blockRegion` then `gridLines … pixel = true`) for every point set, optional region, shape, spacing list and adjust string.  This is the
+    grid whose nodes are the block centres used by C08–C11. -/
+theorem gen_block_lines_eq_model (es ns : List Rat) (region : Option (Rat × Rat × Rat × Rat)) (shape : Option (Nat × Nat))
+    (spacing : Option (List Rat)) (adj : String) :
+    Gen.blockLines es ns spacing adj region (shape.map fun p => ((p.1 : Int), (p.2 : Int)))
+      = (blockRegion es ns ⟨region.map quadList, shape, spacing, C07.adjOf adj⟩).bind fun reg =>
+          gridLines reg ⟨shape, spacing, C07.adjOf adj, true⟩ := by
+  unfold Gen.blockLines
+  cases region with
+  | some r =>
+    obtain ⟨w, e, s, n⟩ := r
+    simp only [blockRegion, Option.map, quadList, Except.bind, bind, pure, Except.pure]
+    have := C07.gen_grid_lines_eq_model w e s n shape spacing adj true
+    simp only [Option.map] at this
+    rw [this]
+    cases gridLines [w, e, s, n] ⟨shape, spacing, C07.adjOf adj, true⟩ <;> rfl
+  | none =>
+    simp only [blockRegion, Option.map, quadOfOpts_getRegion, bind, Except.bind, pure, Except.pure]
+    cases hg : getRegion es ns with
+    | none => rfl
+    | some r =>
+      simp only []
+      have := C07.gen_grid_lines_eq_model r.w r.e r.s r.n shape spacing adj true
+      simp only [Option.map] at this
+      rw [this]
+      cases gridLines [r.w, r.e, r.s, r.n] ⟨shape, spacing, C07.adjOf adj, true⟩ <;> rfl
+
 
 end Verde.C08
